@@ -49,7 +49,7 @@ class Ctx:
         out = []
         ci = self.prog.cls(TS)
         for name, fi in ci.methods.items():
-            if name == "__init__" or fi.qual in self.scan.absorbed:
+            if name == "__init__" or self.scan.internal_helper(fi):
                 continue  # an extracted helper is judged as part of the methods that call it
             for e in self.scan.events(fi.qual):
                 if self._is_store_mutation(e):
